@@ -41,7 +41,7 @@ def pin_times(ops):
 def file_bundles(tier, seed):
     rng = random.Random(seed)
     d = gens.Dict("A")
-    n = 5 if tier == "quick" else 40
+    n = 10 if tier == "quick" else 40
     hs = []
     for si in range(n):
         base = gens.random_history(rng, d, 3, 28 if tier == "quick" else 40, f"s{si}", heavy="marked", reopen_p=0.04, meta_p=0.05)
@@ -61,7 +61,7 @@ def file_bundles(tier, seed):
                 g = grp if mb is None else f"{grp}mb{mb}"
                 h = {"id": f"{sid}_v{ver}_{label}", "ver": ver, "heavy": "marked", "ops": ops,
                      "backend": {"kind": kind, "chunks": ch},
-                     "cfg": {"script": sid, "label": f"v{ver}_{label}", "grp": g}}
+                     "cfg": {"script": sid, "label": f"v{ver}_{label}", "grp": g, "scope": "all"}}
                 if mb is not None:
                     h["maxbuf"] = mb
                 hs.append(h)
@@ -70,7 +70,7 @@ def file_bundles(tier, seed):
 
 def handle_bundles(tier, seed):
     rng = random.Random(seed + 17)
-    n = 6 if tier == "quick" else 60
+    n = 12 if tier == "quick" else 60
     hs = []
     for si in range(n):
         init = rng.choice([None, 100, 3000, 5000, 9000])
@@ -82,7 +82,7 @@ def handle_bundles(tier, seed):
                 chs = [[]] + (CHUNKS if tier == "thorough" else [CHUNKS[(si + k) % len(CHUNKS)] for k in range(3)])
                 for ci, ch in enumerate(chs):
                     hs.append(dict(base, id=f"{sid}_v{ver}_mb{mb}_c{ci}", ver=ver, maxbuf=mb, hash=True, chunks=ch,
-                                   cfg={"script": sid, "label": f"v{ver}_mb{mb}_chunks{'_'.join(map(str, ch))}", "grp": grp}))
+                                   cfg={"script": sid, "label": f"v{ver}_mb{mb}_chunks{'_'.join(map(str, ch))}", "grp": grp, "scope": "grp"}))
     return hs
 
 
